@@ -626,7 +626,7 @@ func c17Run(ctx *Ctx, t *tape.Tape) *report.Violation {
 
 func c17Counts(tier string) [6]int {
 	if tier == "thorough" {
-		return [6]int{600000, 600000, 150000, 150000, 6000, 6000}
+		return [6]int{6000000, 6000000, 1500000, 1500000, 60000, 60000}
 	}
 	return [6]int{100000, 100000, 20000, 20000, 400, 400}
 }
